@@ -183,7 +183,9 @@ func (rhh *rawHttpHandlerV2) EventHandler(w http.ResponseWriter, req *http.Reque
 		event.AlertType = gostatsd.AlertInfo
 	}
 
-	rhh.handler.DispatchEvent(req.Context(), event)
+	// The request context is cancelled as soon as this function returns, but a handler may deliver the event on its own
+	// goroutine (the forwarder posts it upstream that way), so the event gets a context that outlives the request.
+	rhh.handler.DispatchEvent(context.WithoutCancel(req.Context()), event)
 
 	atomic.AddUint64(&rhh.eventsProcessed, 1)
 	atomic.AddUint64(&rhh.requestSuccess, 1)
